@@ -70,6 +70,9 @@ func genC16dPlan(r *zsim.Rng) *c16dPlan {
 		}
 		p.Steps = append(p.Steps, strings.Join(parts, "+"))
 	}
+	if r.Chance(1, 4) {
+		p.ClockGrain = []int{8, 64, 100000}[r.Intn(3)]
+	}
 	return p
 }
 
